@@ -10,3 +10,136 @@ Proof.
   - apply andb_true_iff in H. destruct H as [H1 H2]. apply N.eqb_eq in H1. apply IH in H2. congruence.
   - inversion H; subst. rewrite N.eqb_refl. simpl. apply IH. reflexivity.
 Qed.
+
+(* ------------------------------------------------------------------------------------------ *)
+(* ASCII / non-ASCII bookkeeping *)
+
+Lemma has_uni_all_ascii : forall l, has_uni l = negb (all_ascii l).
+Proof.
+  induction l as [|x l IH]; simpl; auto. rewrite IH. destruct (is_ascii x); reflexivity.
+Qed.
+
+Lemma all_ascii_app : forall a b, all_ascii (a ++ b) = all_ascii a && all_ascii b.
+Proof. intros. unfold all_ascii. apply forallb_app. Qed.
+
+Lemma has_uni_app : forall a b, has_uni (a ++ b) = has_uni a || has_uni b.
+Proof. intros. unfold has_uni. apply existsb_app. Qed.
+
+Lemma enc16_ascii : forall r, is_ascii r = true -> enc16 r = [r].
+Proof.
+  unfold is_ascii, enc16. intros r H. apply N.ltb_lt in H.
+  destruct (r <=? 65535) eqn:E; auto. apply N.leb_gt in E. lia.
+Qed.
+
+Lemma decode_ascii : forall s, all_ascii s = true -> decode s = s.
+Proof.
+  induction s as [|b s IH]; simpl; auto. intros H. apply andb_true_iff in H. destruct H as [H1 H2].
+  unfold is_ascii in H1. rewrite H1. f_equal. auto.
+Qed.
+
+Lemma enc16_all_ascii : forall s, all_ascii s = true -> flat_map enc16 s = s.
+Proof.
+  induction s as [|b s IH]; simpl; auto. intros H. apply andb_true_iff in H. destruct H as [H1 H2].
+  rewrite enc16_ascii by auto. simpl. f_equal. auto.
+Qed.
+
+Lemma units_imp_ascii : forall s sc, all_ascii s = true -> units (SImp s sc) = s.
+Proof. intros. simpl. rewrite decode_ascii by auto. apply enc16_all_ascii; auto. Qed.
+
+Lemma has_uni_enc16 : forall r, 128 <= r -> has_uni (enc16 r) = true.
+Proof.
+  intros r H. unfold enc16. destruct (r <=? 65535) eqn:E; unfold has_uni; cbn [existsb]; unfold is_ascii;
+    match goal with |- context [?x <? 128] => assert (x <? 128 = false) as ->
+      by (apply N.ltb_ge; first [exact H | apply N.le_trans with 55296; [lia|apply N.le_add_r]]) end;
+    reflexivity.
+Qed.
+
+Ltac inr_split H :=
+  unfold inr, cont in H; repeat (apply andb_true_iff in H; let H' := fresh H in destruct H as [H H']);
+  repeat match goal with
+         | X : (_ <=? _) = true |- _ => apply N.leb_le in X
+         | X : (_ <? _) = true |- _ => apply N.ltb_lt in X
+         | X : (_ <? _) = false |- _ => apply N.ltb_ge in X
+         end.
+
+(* the first rune produced for a non-ASCII first byte is never ASCII *)
+Lemma decode_first_non_ascii : forall b0 t, b0 <? 128 = false ->
+  exists r rest, decode (b0 :: t) = r :: rest /\ 128 <= r.
+Proof.
+  intros b0 t Hb. simpl. rewrite Hb. apply N.ltb_ge in Hb.
+  assert (HRE : 128 <= RE) by (unfold RE; lia).
+  destruct (inr 194 223 b0) eqn:E2.
+  { destruct t as [|b1 t1]; [eexists _, _; split; [reflexivity|exact HRE]|].
+    destruct (cont b1) eqn:C1; [|eexists _, _; split; [reflexivity|exact HRE]].
+    eexists _, _; split; [reflexivity|]. inr_split E2. inr_split C1. lia. }
+  destruct (inr 224 239 b0) eqn:E3.
+  { destruct t as [|b1 [|b2 t2]]; try (eexists _, _; split; [reflexivity|exact HRE]).
+    match goal with |- context [if ?c then _ else _] => destruct c eqn:C end;
+      [|eexists _, _; split; [reflexivity|exact HRE]].
+    eexists _, _; split; [reflexivity|].
+    apply andb_true_iff in C. destruct C as [C1 C2]. inr_split E3.
+    destruct (b0 =? 224) eqn:Eb.
+    - apply N.eqb_eq in Eb. subst. unfold inr in C1. apply andb_true_iff in C1. destruct C1 as [C1 _].
+      apply N.leb_le in C1. lia.
+    - apply N.eqb_neq in Eb. lia. }
+  destruct (inr 240 244 b0) eqn:E4.
+  { destruct t as [|b1 [|b2 [|b3 t3]]]; try (eexists _, _; split; [reflexivity|exact HRE]).
+    match goal with |- context [if ?c then _ else _] => destruct c eqn:C end;
+      [|eexists _, _; split; [reflexivity|exact HRE]].
+    eexists _, _; split; [reflexivity|].
+    apply andb_true_iff in C. destruct C as [C C3]. apply andb_true_iff in C. destruct C as [C1 C2]. inr_split E4.
+    destruct (b0 =? 240) eqn:Eb.
+    - apply N.eqb_eq in Eb. subst. unfold inr in C1. apply andb_true_iff in C1. destruct C1 as [C1 _].
+      apply N.leb_le in C1. lia.
+    - apply N.eqb_neq in Eb. lia. }
+  eexists _, _; split; [reflexivity|exact HRE].
+Qed.
+
+Lemma scan_has_uni : forall s, all_ascii s = false -> has_uni (flat_map enc16 (decode s)) = true.
+Proof.
+  induction s as [|b s IH]; simpl; [discriminate|]. intros H.
+  unfold is_ascii in H. destruct (b <? 128) eqn:Eb.
+  - simpl in H. simpl. rewrite has_uni_app. rewrite IH by exact H. apply orb_true_r.
+  - destruct (decode_first_non_ascii b s Eb) as (r & rest & Hd & Hr).
+    simpl in Hd. rewrite Eb in Hd. rewrite Hd. simpl. rewrite has_uni_app, has_uni_enc16 by exact Hr. reflexivity.
+Qed.
+
+Lemma scan_some : forall s u, scan s = Some u -> u = flat_map enc16 (decode s) /\ has_uni u = true /\ all_ascii s = false.
+Proof.
+  unfold scan. intros s u H. destruct (all_ascii s) eqn:E; [discriminate|]. inversion H; subst.
+  split; [reflexivity|]. split; [apply scan_has_uni; exact E|reflexivity].
+Qed.
+
+Lemma scan_none : forall s, scan s = None -> all_ascii s = true.
+Proof. unfold scan. intros s H. destruct (all_ascii s); [reflexivity|discriminate]. Qed.
+
+(* ------------------------------------------------------------------------------------------ *)
+(* devirt *)
+
+Lemma units_devirt : forall a, units (devirt a) = units a.
+Proof.
+  destruct a as [bs|us|s sc]; simpl; auto.
+  destruct (scan s) as [u|] eqn:E.
+  - apply scan_some in E. destruct E as [-> _]. reflexivity.
+  - apply scan_none in E. simpl. rewrite decode_ascii, enc16_all_ascii; auto.
+Qed.
+
+Lemma nf_devirt : forall a, nf a = true -> nf (devirt a) = true.
+Proof.
+  destruct a as [bs|us|s sc]; simpl; auto. intros _.
+  destruct (scan s) as [u|] eqn:E.
+  - apply scan_some in E. simpl. tauto.
+  - apply scan_none in E. exact E.
+Qed.
+
+Inductive dv_shape : jsstr -> Prop :=
+| dv_a : forall bs, dv_shape (SAscii bs)
+| dv_u : forall us, dv_shape (SUni us).
+
+Lemma devirt_shape : forall a, dv_shape (devirt a).
+Proof. destruct a as [bs|us|s sc]; simpl; try constructor. destruct (scan s); constructor. Qed.
+
+Lemma payload_devirt : forall a, payload (devirt a) = units a.
+Proof.
+  intros a. rewrite <- (units_devirt a). destruct (devirt_shape a); reflexivity.
+Qed.
